@@ -124,7 +124,11 @@ def specPdr (cs : List PdrChild) : Option PdrSpec := do
   pure { id := id, prec := pr, ohr := oh, farId := fa, qerIds := cs.filterMap PdrChild.qerid?,
          urrIds := cs.filterMap PdrChild.urrid?, pdi := q }
 
+def FpChild.isOhcTag : FpChild → Bool | .ohctag _ => true | _ => false
+
 def specFwd (cs : List FpChild) : Option FwdSpec := do
+  -- an Outer Header Creation with C-TAG / S-TAG is outside the supported forms (the UPF skips it): no specification
+  if cs.any FpChild.isOhcTag then none
   let o ← atMostOne (cs.filterMap FpChild.ohc?)
   let p ← atMostOne (cs.filterMap FpChild.fpol?)
   let s ← atMostOne (cs.filterMap FpChild.smreq?)
